@@ -123,6 +123,7 @@ func (p *BundlePropertyExperimenter) MarshalBinary() (data []byte, err error) {
 	n := 0
 	binary.BigEndian.PutUint16(data[n:], p.Type)
 	n += 2
+	p.Length = p.Len()
 	binary.BigEndian.PutUint16(data[n:], p.Length)
 	n += 2
 	binary.BigEndian.PutUint32(data[n:], p.ExperimenterID)
